@@ -63,7 +63,7 @@ Proof.
     - exists fresh. apply buf_get_set_same. }
   destruct Hg as [arr Hg]. rewrite Hg.
   pose proof (buf_len255_get _ _ _ Hb1 Hg) as Hlen.
-  rewrite py_setitem_in_range by (unfold pyl_len; rewrite Hlen; lia).
+  rewrite pyl_setitem_in_range by (unfold pyl_len; rewrite Hlen; lia).
   set (arr' := pyl_list_set arr (Z.to_nat (a_frag_num msg - 1)) (Some msg)).
   assert (Hlen' : length arr' = 255%nat) by (unfold arr'; rewrite list_set_length; exact Hlen).
   destruct (pyl_len (not_none (pyl_slice arr' 0 (a_frag_cnt msg))) =? a_frag_cnt msg) eqn:E.
